@@ -15,7 +15,7 @@ FN_PROFILE = dict(p_async=1.0, p_unsafe=0.0, p_extern=0.0, p_const=0.0,
                   deps_kinds=["generic_ref"] * 4 + ["impl_ref"] * 3 + ["no_deps", "concrete_ref"],
                   types=["i32", "i32", "u8", "bool", "str", "String", "tup", "N", "opt", "arr"],
                   forms=["plain"] * 6 + ["wild", "destr"],
-                  rets=["unit", "owned", "owned", "borrow_deps", "borrow_arg", "generic"])
+                  rets=["unit", "owned", "owned", "borrow_deps", "borrow_arg", "generic", "impl_dbg"])
 
 
 def fnmod_case(cid, rng, no_send):
